@@ -207,8 +207,11 @@ ApplyPreds(d, env, seq, preds, j) ==
 \* one axis step from one context node
 StepFrom(d, env, n, st) ==
   LET cand == AxisSeq(d, st.ax, n) IN
+  \* the step is evaluated for context node n: its name test refers to the prefix, whether or not the axis holds a node
+  \* to apply it to (a reference that is evaluated yields an error, C11); only a step that is reached with NO context
+  \* node at all is left unconstrained (see EvalSteps)
   IF ~Bound(env, TestPrefix(st.test))
-  THEN (IF cand = <<>> THEN Err("illtyped") ELSE Err("unbound-prefix"))
+  THEN Err("unbound-prefix")
   ELSE LET tested == SelectSeq(cand, LAMBDA m : NodeTest(d, env, st.ax, st.test, m))
            r == ApplyPreds(d, env, tested, st.preds, 1)
        IN IF r.ok THEN NS(ToSet(r.seq)) ELSE r.err
